@@ -1,5 +1,6 @@
 import Driver.Common
 import Restic.Model.LockRefresh
+import Restic.Gen.Consts
 /-!
 Driver for C13 (stream `script`). Times are microseconds since the start of the case.
   params <refreshInterval> <refreshabilityTimeout> <kind>
@@ -18,8 +19,6 @@ open Driver Restic.Model.LockRefresh
 
 def natAt (r : Array String) (i : Nat) : Nat := (r.getD i "0").toNat?.getD 0
 
-/-- scheduling tolerance of the observations: 40 ms -/
-def jitter : Nat := 40000
 
 structure Ev where
   kind : String
@@ -67,8 +66,12 @@ def handleC13 (c : Case) : Verdict :=
   match c.find "params", c.find "script" with
   | some pr, some sc =>
     if (c.find "lockerr").isSome then .differ "harness" "Lock failed" else
+    if (c.find "bubble").isSome then .differ "harness" s!"synctest bubble: {(c.find "bubble").get!.toList}" else
     let ri := natAt pr 1; let rt := natAt pr 2; let kind := pr.getD 3 "?"
     let poll := if ri < 1000000 then ri / 5 else 1000000
+    -- the cases run in virtual time (testing/synctest): timers are exact; one poll interval of
+    -- tolerance covers the order of events that fall on the same instant
+    let jitter := poll
     let slow := natAt sc 5
     let unlockAt := natAt sc 9
     let dOp := slow + jitter
@@ -135,6 +138,18 @@ def handleC13 (c : Case) : Verdict :=
           acc.bad "C13:lock-file-left-after-unlock" s!"{natAt r 1} lock files left although no removal failed"
         else acc
       | none => acc
+    -- "before its lock could be judged stale by others": with the real constants (or the same
+    -- proportions for the shortened lockers) and a fault script within the property's assumption
+    -- (2·D + p + 2·eps fits into the margin S − R of the source) no active age reaches S − 2·eps
+    let realC := pr.getD 4 "0" == "1"
+    let sReal := Restic.Gen.lock_staleLockTimeout_ns / 1000
+    let rReal := Restic.Gen.lock_refreshabilityTimeout_ns / 1000
+    let stale := if realC then sReal else rt * 4 / 3
+    let eps := stale / 30
+    let acc := if 2 * dOp + poll + 2 * eps + (if realC then rReal else rt) ≤ stale ∨ !realC && 2 * dOp + poll + 2 * eps + rt ≤ stale then
+        (if acc.ages.any (fun a => a + 2 * eps > stale) then
+          acc.bad "C13:active-with-stale-lock" s!"kind={kind} staleTimeout={stale} eps={eps} ages={acc.ages.reverse}" else acc.label "within-margin-assumption")
+      else acc
     -- the timing part of the property on the observed ages
     let acc := if !agesOK bound acc.ages then
         acc.bad "C13:active-with-overage-lock" s!"kind={kind} R={rt} poll={poll} D={dOp} bound={bound} ages={acc.ages.reverse} unlockAt={unlockAt}"
